@@ -1056,3 +1056,70 @@ def gen_ctrl(g, profile='ctrl'):
 
 
 PROFILES['ctrl'] = gen_ctrl
+
+
+# ---------------------------------------------------------------------------
+# C08: motor characteristic (boundary duty schedules, mirror run)
+
+def gen_motor(g):
+    r = g.rng
+    scn, model, chain = base_scenario(
+        g, 'motor', n_target=r.choice([2, 2, 3, 4]), data_level=0,
+        force_worm=True if g.chance(0.15) else False)
+    mot = scn['elements'][0]
+    if mot['i0'] is None and g.chance(0.85):
+        m2 = g.motor('e0_motor', current=True)
+        mot['i0'], mot['imax'] = m2['i0'], m2['imax']
+    if mot['i0'] is not None and g.chance(0.3):
+        # small currents in mA/uA: products D*imax then land on i0 exactly
+        # for some one-ulp neighbours of the dead-zone edge
+        i0 = g.logu(1e-5, 1e-2)
+        imax = i0 * r.uniform(3, 30)
+        u = r.choice(['mA', 'uA', 'A'])
+        mot['i0'] = [float(f'{i0 / si.factor("Current", u):.3g}'), u]
+        mot['imax'] = [float(f'{imax / si.factor("Current", u):.3g}'), u]
+    model = model_of(scn['elements'], scn['decls'])
+    msi = model.e[0]
+    k, R, E, J = rm.rate_constant(model, chain)
+    w_out = msi['w0'] / R
+    scn['load'] = gen_load(g, model, chain,
+                           overload=r.choice([0.1, 0.5, 1.0, 2.0, 5.0]),
+                           families=r.choice([['const'], ['const', 'visc'],
+                                              ['const', 'sintime'], ['quad']]))
+    c = r.random()
+    w_init = 0.0 if c < 0.3 else (r.uniform(-1.5, 1.5) * w_out if c < 0.8
+                                  else r.uniform(-4, 4) * w_out)
+    scn['init'] = {'position': g.q('AngularPosition', r.uniform(-5, 5)),
+                   'speed': g.q('AngularSpeed', w_init),
+                   'pwm': r.choice([1, -1, 0.5, -0.5, 0, 1.0])}
+    n = r.randint(*g.cfg.get('steps', (6, 60)))
+    sched = [gen_run(g, k, n=n, kdt=g.logu(0.02, 1.0), control=True)]
+    scn['schedule'] = sched
+    # full-density scripted duty history (so that the mirror run is exact)
+    dlim = rm.motor_dlim(msi)
+    table = {}
+    cur = 1.0
+    sweep = g.chance(0.3)
+    for j in range(n + 2):
+        if sweep:
+            cur = round(-1 + 2 * j / (n + 1), 6)
+        elif g.chance(0.3):
+            c = r.random()
+            if c < 0.35 and dlim:
+                base = dlim * r.choice([1, -1])
+                cur = r.choice([base, math.nextafter(base, 2),
+                                math.nextafter(base, -2),
+                                math.nextafter(math.nextafter(base, 2), 2),
+                                base * (1 + 1e-12), base * (1 - 1e-12)])
+            elif c < 0.45:
+                cur = r.choice([1, -1, 1.0, -1.0])
+            elif c < 0.55:
+                cur = 0
+            else:
+                cur = round(r.uniform(-1, 1), 4)
+        table[str(j)] = cur
+    scn['rules'] = [{'kind': 'Scripted', 'table': table}]
+    return scn
+
+
+PROFILES['motor'] = gen_motor
